@@ -107,7 +107,45 @@ func leU64(b []byte) uint64 {
 }
 
 // genArchive produces a valid archive through the real writers, and its description.
+// corpusArchives: how many of the fixed corpus archives genArchive has handed out in this process
+var corpusArchives int
+
+// boundaryRoot: an identity CID of exactly L bytes (L = 23, 255: the byte string holding it is 24 / 256
+// long, a CBOR head boundary of the header encoding)
+func (g *Gen) boundaryRoot(L int) cid.Cid {
+	dl := L - 4
+	if dl >= 128 {
+		dl = L - 5
+	}
+	ih, _ := mh.Sum(g.bytes(dl), mh.IDENTITY, -1)
+	return cid.NewCidV1(cid.Raw, ih)
+}
+
 func genArchive(g *Gen, maxBlocks int) (roots string, bs []Blk, ver int, dp uint64, arch []byte, payloadEnd int) {
+	if corpusArchives < 4 {
+		// the first four archives of every family that uses genArchive are a fixed corpus: the edge
+		// block list under edge root lists (a repeated root with every root present; roots whose length
+		// sits on a CBOR head boundary), as CARv1 and as CARv2 with and without data padding
+		k := corpusArchives
+		corpusArchives++
+		bs = g.EdgeBlocks()
+		var r []cid.Cid
+		switch k {
+		case 0, 2:
+			r = []cid.Cid{bs[0].C, bs[0].C, bs[4].C}
+		default:
+			r = []cid.Cid{bs[0].C, g.boundaryRoot(23), g.boundaryRoot(255)}
+		}
+		roots = rootsArg(r)
+		if k < 2 {
+			arch = writeAll(r, bs, true)
+			return roots, bs, 1, 0, arch, len(arch)
+		}
+		dp = []uint64{13, 0}[k-2]
+		arch = writeAll(r, bs, false, carv2.UseDataPadding(dp))
+		payloadEnd = int(leU64(arch[27:35]) + leU64(arch[35:43]))
+		return roots, bs, 2, dp, arch, payloadEnd
+	}
 	bs = g.Blocks(maxBlocks)
 	r := g.Roots(bs)
 	roots = rootsArg(r)
